@@ -181,6 +181,8 @@ type ReplayFile struct {
 }
 
 type ReplayOutcome struct {
+	Package   string `json:"package,omitempty"`
+	Kind      string `json:"kind,omitempty"`
 	Template  string `json:"template"`
 	TestFile  string `json:"test_file,omitempty"`
 	Ran       bool   `json:"ran"`
